@@ -295,6 +295,7 @@ class Interp:
         self.fresh = 0
         self.trace_calls: list | None = None  # when a list: every resolved repo call is appended
         self.path_conds: list = []  # stack of (cond, polarity) for the abstract branches being explored
+        self.cur_guards: list = []  # raise-guards passed on every path that reaches the current point
 
     # -------------------------------------------------------------- utilities
     def site(self, module, node):
@@ -907,7 +908,10 @@ class Interp:
                         return True, val
                     i += 1
                     continue
-                return self.exec_abstract_if(st, test, stmts, i, env)
+                done, val = self.exec_abstract_if(st, test, stmts, i, env)
+                if done == "fallthrough":
+                    return False, None
+                return done, val
             done, val = self.exec_stmt(st, env)
             if done:
                 return True, val
@@ -915,24 +919,35 @@ class Interp:
         return False, None
 
     def exec_abstract_if(self, st, test, stmts, i, env):
+        """Both arms of a branch on an abstract condition.
+
+        Each arm is run together with the rest of the enclosing block, so a
+        ``return`` / ``raise`` inside an arm is handled path-sensitively.  The
+        set of raise-guards passed so far (``cur_guards``) is tracked per path
+        and intersected at the join: after the join it holds the guards that
+        *every* surviving path went through (must-pass-through).
+        """
         site = self.site(env.module, st)
         results = []
+        guards_before = list(self.cur_guards)
         for polarity, branch in ((True, st.body), (False, st.orelse)):
             e2 = self._fork_env(env)
+            self.cur_guards = list(guards_before)
             self.path_conds.append((test, polarity))
             try:
                 done, val = self.exec_block(branch, 0, e2)
                 if not done:
                     done, val = self.exec_block(stmts, i + 1, e2)
-                results.append((polarity, "ok", done, val, e2))
+                results.append((polarity, "ok", done, val, e2, list(self.cur_guards)))
             except RaiseSignal as r:
-                results.append((polarity, "raise", r, None, e2))
+                results.append((polarity, "raise", r, None, e2, None))
             finally:
                 self.path_conds.pop()
         oks = [r for r in results if r[1] == "ok"]
+        new_guards = []
         for r in results:
             if r[1] == "raise":
-                self.guards.append({
+                g = {
                     "cond": test,
                     "polarity": r[0],
                     "exc": r[2].exc.cls_name if isinstance(r[2].exc, ExcV) else str(r[2].exc),
@@ -940,23 +955,33 @@ class Interp:
                     "raise_site": r[2].site,
                     "fn": self.call_stack[-1] if self.call_stack else "<top>",
                     "path": list(self.path_conds),
-                })
+                }
+                self.guards.append(g)
+                new_guards.append(g)
         if not oks:
+            self.cur_guards = guards_before
             raise results[0][2]
         if len(oks) == 1:
-            _, _, done, val, e2 = oks[0]
+            _, _, done, val, e2, gs = oks[0]
             self._merge_env_into(env, e2)
+            self.cur_guards = gs + new_guards
             return done, val
-        (_, _, d1, v1, e1), (_, _, d2, v2, e2) = oks
+        (_, _, d1, v1, e1, g1), (_, _, d2, v2, e2, g2) = oks
         if d1 != d2:
-            raise AnalysisError(f"abstract branch at {site}: one arm returns, the other falls off the function")
+            raise AnalysisError(f"abstract branch at {site}: one arm returns, the other falls off a nested block")
+        ids2 = {id(g) for g in g2}
+        self.cur_guards = [g for g in g1 if id(g) in ids2]
         # both arms ran the rest of the block: join variables and the return value
         for k in set(e1.vars) | set(e2.vars):
             a, b = e1.vars.get(k, _MISSING), e2.vars.get(k, _MISSING)
             if a is _MISSING or b is _MISSING:
+                env.vars.pop(k, None)
                 continue
             env.vars[k] = ite(test, a, b, site)
-        return True if d1 else True, ite(test, v1, v2, site) if d1 else None
+        if d1:
+            return True, ite(test, v1, v2, site)
+        # neither arm returned: the enclosing block is finished (its rest ran inside the arms)
+        return "fallthrough", None
 
     def _fork_env(self, env):
         e2 = env.copy()
@@ -1032,6 +1057,37 @@ class Interp:
         if isinstance(st, ast.Pass):
             return False, None
         if isinstance(st, ast.Try):
+            # Handlers that end in ``raise`` are raise-guards: "the try body fails => exception".
+            for h in st.handlers:
+                e2 = self._fork_env(env)
+                if h.name:
+                    e2.vars[h.name] = ExcV("Exception")
+                try:
+                    saved = list(self.cur_guards)
+                    self.exec_block(h.body, 0, e2)
+                    self.cur_guards = saved
+                except RaiseSignal as r:
+                    self.cur_guards = saved
+                    vals = []
+                    for n in ast.walk(ast.Module(body=st.body, type_ignores=[])):
+                        if isinstance(n, ast.Name) and isinstance(n.ctx, ast.Load):
+                            try:
+                                vals.append(env.lookup(n.id))
+                            except KeyError:
+                                pass
+                    g = {
+                        "cond": T.mk("try_fails", tuple(v for v in vals if isinstance(v, (T.Term, list, tuple, dict)))),
+                        "polarity": True,
+                        "exc": r.exc.cls_name if isinstance(r.exc, ExcV) else str(r.exc),
+                        "site": self.site(m, st),
+                        "raise_site": r.site,
+                        "fn": self.call_stack[-1] if self.call_stack else "<top>",
+                        "path": list(self.path_conds),
+                    }
+                    self.guards.append(g)
+                    self.cur_guards.append(g)
+                except AnalysisError:
+                    self.cur_guards = saved
             try:
                 done, val = self.exec_block(st.body, 0, env)
             except RaiseSignal as r:
@@ -1555,11 +1611,17 @@ def tree_map_struct(it, f, trees, site):
     return rebuild(out)
 
 
-def lam_key(it, f, arity, site):
-    """A structural key for a callable: its body evaluated on bound variables."""
+def lam_key(it, f, arity, site, trees=None):
+    """A structural key for a callable: its body evaluated on bound variables.
+
+    For ``tree_map(f, X)`` over an opaque tree the bound variable is the generic
+    leaf ``leaf_of(X)``, so guards inside ``f`` are attributed to ``X``."""
     if isinstance(f, (PrimV, BuiltinV)):
         return f
-    bound = [T.atom(f"${i}") for i in range(arity)]
+    if trees is not None:
+        bound = [T.mk("leaf_of", (t,)) if isinstance(t, T.Term) else T.atom(f"${i}") for i, t in enumerate(trees)]
+    else:
+        bound = [T.atom(f"${i}") for i in range(arity)]
     try:
         body = it.call(f, bound, {}, site)
     except (AnalysisError, RaiseSignal):
@@ -1576,7 +1638,7 @@ def _p_tree_map(it, args, kwargs, site):
     f, *trees = args
     if all(_is_pytree_container(t) or _is_static(t) for t in trees[:1]):
         return tree_map_struct(it, f, trees, site)
-    return T.mk("tree.tree_map", (lam_key(it, f, len(trees), site), *trees), origin=site)
+    return T.mk("tree.tree_map", (lam_key(it, f, len(trees), site, trees), *trees), origin=site)
 
 
 @prim("tree.tree_leaves")
